@@ -443,7 +443,7 @@ pub fn run(tier: &str, seed: u64) -> i32 {
         not just kind). Rule level: every dotted path of 2-3 plain segments as key `p: v` and as nested mappings, \
         both judged against the reference and against each other when all intermediates are objects. Totality: \
         hand-picked degenerate keys and random key strings never panic; a key with several indices in one segment \
-        is missing or fully descended, never a shorter path. Wide rules (100-380 distinct fields, dense documents): every \
+        is missing or fully descended, never a shorter path. Decoys: the same lookups on documents that also hold literal keys spelled like path fragments (`a[0]`, `a.b`, `a[0][1]`, `0`) at the top level and inside `a` - such a key is another key and never answers for a path. Wide rules (100-380 distinct fields, dense documents): every \
         predicate is decided by its own field, also after optimisation (reference + optimised agreement). Non-trivial: a lookup that succeeds \
         through >= 2 steps or an index, or fails at a step after the first; distinct by (document, path)."
         .into();
@@ -520,6 +520,93 @@ pub fn run(tier: &str, seed: u64) -> i32 {
     });
     for s in subs {
         report.merge(s);
+    }
+
+    // decoys: documents that also hold keys *spelled* like path fragments (`a[0]`, `a.b`, `a[0][1]`,
+    // `0`) at the top level and inside `a`. A path is walked segment by segment; a literal key that
+    // looks like a piece of the path is another key and must never answer for it.
+    {
+        let spelled = [
+            "a[0]", "a[1]", "a[0][1]", "a[0][0]", "b[0]", "b[1][0]", "a.b", "a.a", "a.b[0]", "a[0].a", "a.0", "0", "a.b.c", "[0]",
+            "a[", "a]", "a.", ".a", "a[0", "a 0",
+        ];
+        let values = [
+            DocVal::arr(vec![DocVal::s("p"), DocVal::s("q")]),
+            DocVal::arr(vec![DocVal::arr(vec![DocVal::s("r"), DocVal::s("s")]), DocVal::obj(vec![("a", DocVal::s("t"))])]),
+            DocVal::obj(vec![("a", DocVal::s("u")), ("b", DocVal::arr(vec![DocVal::s("w")]))]),
+            DocVal::s("decoy"),
+        ];
+        let mut bases: Vec<DObj> = vec![DObj::default()];
+        bases.extend(docs.iter().step_by(if tier == "thorough" { 11 } else { 67 }).cloned());
+        let mut decoys: Vec<DObj> = vec![];
+        for b in &bases {
+            for k in spelled {
+                for v in &values {
+                    let mut d = b.clone();
+                    d.set(k, v.clone());
+                    decoys.push(d);
+                    if let Some(DocVal::Obj(inner)) = b.get_val("a") {
+                        let mut inner = inner.clone();
+                        inner.set(k, v.clone());
+                        let mut d = b.clone();
+                        d.set("a", DocVal::Obj(inner));
+                        decoys.push(d);
+                    }
+                }
+            }
+        }
+        let mut keys = paths(2);
+        keys.extend(odd.iter().cloned());
+        keys.extend(spelled.iter().map(|s| s.to_string()));
+        report.label_n("decoy_documents", decoys.len() as u64);
+        let subs: Vec<Report> = par_run(|w, n| {
+            let mut sub = report.sub();
+            for (i, d) in decoys.iter().enumerate() {
+                if i % n != w {
+                    continue;
+                }
+                let mut c = Case::new("c10.find");
+                c.docs = vec![d.clone()];
+                c.texts = keys.clone();
+                match judge(&c) {
+                    Outcome::Violation(m) => {
+                        let mut narrowed = false;
+                        for k in &c.texts {
+                            let mut one = Case::new("c10.find");
+                            one.docs = vec![d.clone()];
+                            one.texts = vec![k.clone()];
+                            if let Outcome::Violation(m1) = judge(&one) {
+                                sub.record(&one, Outcome::Violation(m1));
+                                narrowed = true;
+                                break;
+                            }
+                        }
+                        if !narrowed {
+                            sub.record(&c, Outcome::Violation(m));
+                        }
+                    }
+                    Outcome::Pass { evaluations, labels, nontrivial } => {
+                        sub.evaluations += evaluations;
+                        sub.cases += 1;
+                        sub.label("decoy_document");
+                        for l in labels {
+                            sub.label(l);
+                        }
+                        if let Some(h) = nontrivial {
+                            sub.nontrivial.insert(h);
+                        }
+                        if i % 997 == 0 {
+                            sub.sample(json!({"decoy_document": d.show(), "paths_tried": c.texts.len()}));
+                        }
+                    }
+                    other => sub.record(&c, other),
+                }
+            }
+            sub
+        });
+        for s in subs {
+            report.merge(s);
+        }
     }
 
     // rule level: dotted vs nested mapping forms
